@@ -64,6 +64,33 @@ claim("C27", "e2_wakesim",
   "Trusted: shuttle's scheduler, the stub tick closure and oracles. Sequentially consistent interleavings at the yield points only (Miri leg in thorough tier samples weak-memory behaviours); <=2 wakers/senders, <=2 wakes or 3 items each; AtomicWaker/tokio mpsc treated as atomic between yield points; run_available_sync/run_tick_sync covered only through the shared run_tick.",
   "DESIGN.md §5 C27, §13")
 
+E4NOTE = 'Trusted: hand-written plain-Rust specs per corpus flow, the SimStream/recording stubs and simulated network. Production *embedded* back end only (deploy/trybuild process and network glue not run); program space = the hand-written corpus + seeded composer flows; inputs <= ~12 items. Sampled, not exhaustive.'
+claim("C28", "e4_hydroprod",
+  "deterministic simulation: Hydro flows compiled by the production code generator (generate_embedded) run under seeded tick partitions of their inputs (all-at-once, singletons, random cuts, empty ticks), seeded location order and network delivery schedules admitted by the channel guarantees; final outputs compared across schedules and against a plain-Rust spec; bounded-liveness idle check",
+  "Seeded exploration of tick partitions / location orders / network schedules around production-generated code for a corpus of safe top-level flows plus composer-generated flows (schedule independence only).",
+  E4NOTE + " One recorded known finding (collect_quorum_with_response cross-key order depends on batching) is printed as KNOWN-FINDING.",
+  "DESIGN.md §5 C28, §13")
+claim("C29", "e4_hydroprod",
+  "deterministic simulation: production-compiled ordered/keyed flows under seeded tick partitions and cross-key interleavings; output sequences (TotalOrder) and per-key subsequences compared across schedules and against specs",
+  "Seeded exploration of tick partitions and cross-key interleavings; per-key outputs must be a function of that key's input subsequence only.",
+  E4NOTE + " Same known finding as C28.",
+  "DESIGN.md §5 C29, §13")
+claim("C30", "e4_hydroprod",
+  "deterministic simulation: production-compiled tick programs (batch -> tick operators -> all_ticks) under seeded per-tick batches chosen by the simulator; per-tick output compared with the operator applied to that batch alone; deferred values must appear exactly one tick later",
+  "Seeded exploration of per-tick batch histories (incl. empty ticks) against per-tick specs; the simulator knows the batches because it chose the partition.",
+  E4NOTE,
+  "DESIGN.md §5 C30, §13")
+claim("C32", "e4_hydroprod",
+  "deterministic simulation: one production-compiled corpus flow per assume_ordering_trusted/assume_retries_trusted call site, input typed as weakly as the signature allows; seeded admissible permutations (NoOrder) and duplications (AtLeastOnce) of the input on top of seeded tick partitions; final results compared across runs and with specs",
+  "Seeded exploration of the orders/duplications the input type says the network may produce, plus tick partitions.",
+  E4NOTE + " Inputs <= 6 items; permutations sampled.",
+  "DESIGN.md §5 C32, §13")
+claim("C33", "e4_hydroprod",
+  "deterministic simulation: production-compiled flows producing monotone singletons / keyed singletons / bounded-value keyed singletons, snapshotted every tick under seeded inputs and tick partitions; history oracle: keys never vanish, monotone values never decrease, bounded values never change",
+  "Seeded exploration of input histories and tick partitions; oracle over the per-tick snapshot history.",
+  E4NOTE,
+  "DESIGN.md §5 C33, §13")
+
 NOT_BUILT = {}  # pid -> reason while its check is not built yet
 
 ALL = ["C%02d" % i for i in range(1, 43)]
@@ -103,6 +130,7 @@ def main():
     ENG_KIND = {
       "e1_pull": "poll-level deterministic simulator for dfir_pipes pull combinators and the symmetric hash join",
       "e2_wakesim": "thread-interleaving simulator (shuttle) for the dataflow runner's wake-up protocol, with guarded yield hooks in dfir_rs",
+      "e4_hydroprod": "production-compiled (embedded back end) Hydro flows under simulated tick partitions, location schedules and a simulated network",
       "e1_sink": "poll-level deterministic simulator for sinktools adaptors and MergeSource",
       "e1_push": "poll-level deterministic simulator for dfir_pipes push combinators",
       "e1_pollsim": "poll-level deterministic simulator: scripted Pending/Ready/wake schedules around real dfir_pipes/sinktools/MergeSource/unsync-mpsc code",
